@@ -205,6 +205,17 @@ func init() {
 			return it.Cnt["reset-with-highest-event-observer"] > 0 && it.Cnt["reset-with-registered-filter"] > 0 && it.Cnt["reset-nonempty-world"] > 0 && last >= 0 && len(ops)-last >= 5
 		},
 	}
+	Props["C17"] = &PropDef{
+		ID: "C17",
+		Profile: &Profile{Name: "dump", W: map[string]int{"new": 20, "newBatch": 10, "copy": 5, "removeEntity": 24, "removeEntities": 8, "filterNew": 3, "add": 4, "reset": 1, "dumpLoad": 1, "shrink": 1},
+			MaxEnts: 30, MinOps: 5, MaxOps: 120, Caps: []int{1, 1, 2, 3, 4, 8, 0}, FinalOp: "roundtrip"},
+		Policies: []Policy{{}, {}},
+		Opt:      Options{DeepEvery: 10},
+		Rule: genNote + "a creation/removal-heavy history (any free-list shape) is executed on two worlds; then world 0 is dumped and loaded into a fresh world, world 1 is dumped, reset and reloaded; " +
+			"Alive of every handle ever issued, Stats and a full query must agree in all three worlds, loaded entities have no components, loading into a used world must panic, the dump must not alias the pool, " +
+			"and 1-24 drawn creations/removals applied in lock-step must return identical handles in all three; non-trivial = the free list holds >= 2 IDs in non-ascending order at dump time",
+		NonTrivial: func(it *Interp, ops []Op) bool { return it.Cnt["free-list-not-ascending"] > 0 },
+	}
 	Props["C19"] = &PropDef{
 		ID: "C19",
 		Profile: &Profile{Name: "stats", W: with(obsW, "stats", 14, "obsNew", 3, "obsReg", 3, "shrink", 4, "setRel", 8, "removeEntity", 9, "filterReg", 4, "reset", 1, "qOpen", 2, "qNext", 2, "qClose", 2),
